@@ -68,6 +68,10 @@ fn make_noise(rng: &mut StdRng, cat: &str, base: &Msg, ex: &Exec, port: usize) -
         "sdo-id" => {
             if rng.gen_bool(0.5) {
                 m.hdr.minor_sdo = m.hdr.minor_sdo.wrapping_add(1);
+                // ... from a PTP 2.0 sender (minorVersionPTP 0) every other time
+                if rng.gen_bool(0.5) {
+                    m.hdr.minor_version = 0;
+                }
             } else {
                 m.hdr.major_sdo = (m.hdr.major_sdo + 1) & 0x0f;
             }
